@@ -5,8 +5,8 @@ quick:    MC_News exhaustive over every step kind to 4 steps (names {x,y}, depth
           Go driver `vh-news` decorates 5 of 6 scripts with seeded random names / titles / user names (<= 255
           bytes) / bodies (<= 63 KiB), executes them on the real server and records what every read request and a
           second store loaded from ThreadedNews.yaml show after every step; Trace_News validates the log.
-thorough: exhaustive to 5 steps (all variants) and 7 steps (thin variants), several simulation batches, longer
-          walks with more articles.
+thorough: exhaustive to 5 steps (all variants), 12 steps (flat categories, one text) and 9 steps (depth 2, one
+          text); eight simulation batches, three of them with walks of 30 steps and up to 6 articles per category.
 """
 import concurrent.futures
 import json
@@ -27,6 +27,25 @@ def rle_bytes(r):
     return bytes(out)
 
 
+def show(r, limit=24):
+    """A text in run-length form as a short readable string (for evidence samples only)."""
+    b = rle_bytes(r)
+    if b is None:
+        return "<cut>"
+    t = repr(b[:limit])[2:-1]
+    return t if len(b) <= limit else "%s...(%d bytes)" % (t, len(b))
+
+
+def pretty(step):
+    o = dict(step)
+    for k in ("name", "title", "body"):
+        if k in o:
+            o[k] = show(o[k])
+    if "path" in o:
+        o["path"] = [show(n, 12) for n in o["path"]]
+    return o
+
+
 def sigs_of(rec):
     """One (signature, summary) per failing kind of a VIOL record printed by Trace_News."""
     det = rec.get("detail", {})
@@ -34,13 +53,11 @@ def sigs_of(rec):
     for f in sorted(det.get("fails", [])):
         if f == "list":
             d = det.get("list", {})
-            if d.get("allOver512"):
+            unparseable = [x for x in d.get("obs", []) if not (x.get("ok") and x.get("exact"))]
+            if d.get("allOver512") and len(unparseable) == len(d.get("obs", [])) and unparseable:
                 sig = "C18/list-articles/entry-over-512-bytes"
             else:
-                o = sorted(d.get("obs", []), key=json.dumps)
-                sig = "C18/list-articles/%s/longest-entry=%s" % (
-                    "unparseable" if any(not (x.get("ok") and x.get("exact")) for x in o) else "wrong-entries",
-                    max(d.get("entryLens", [0]) or [0]))
+                sig = "C18/list-articles/%s" % ("unparseable" if unparseable else "wrong-entries")
             out.append((sig, {"kind": f, "detail": d}))
         elif f == "children":
             d = det.get("children", {})
@@ -92,7 +109,7 @@ def run(ctx, prop):
     ctx.build(name="vh-news")
     # 1. design level: the bounded model satisfies the seven properties; a wrong allocator does not.  These TLC runs
     #    do not depend on the generation / replay below and run beside it.
-    pool = concurrent.futures.ThreadPoolExecutor(max_workers=3)
+    pool = concurrent.futures.ThreadPoolExecutor(max_workers=4)
 
     def mutant():
         r = vlib.tlc(ctx, "MC_News", cfg="MC_News_mut.cfg", timeout=600, workers=4)
@@ -105,10 +122,11 @@ def run(ctx, prop):
         design = [pool.submit(ctx.model_check, "MC_News", "MC_News.cfg", 600, 8, False)]
     else:
         design = [pool.submit(ctx.model_check, "MC_News", "MC_News_deep.cfg", 1800, 8, False),
-                  pool.submit(ctx.model_check, "MC_News", "MC_News_deep_thin.cfg", 1800, 6, False)]
+                  pool.submit(ctx.model_check, "MC_News", "MC_News_deep_thin.cfg", 1800, 6, False),
+                  pool.submit(ctx.model_check, "MC_News", "MC_News_deep_tree.cfg", 1800, 4, False)]
     design.append(pool.submit(mutant))
     # 2. behaviours -> scripts -> real code -> log -> trace validation, batch by batch
-    batches = [("Gen_News.cfg", 260, 15)] if quick else [("Gen_News.cfg", 700, 15)] * 5 + [("Gen_News_long.cfg", 350, 30)] * 3
+    batches = [("Gen_News.cfg", 400, 15)] if quick else [("Gen_News.cfg", 700, 15)] * 5 + [("Gen_News_long.cfg", 350, 30)] * 3
     total_scripts, ops, nviol = 0, {}, 0
     for b, (cfg, nsim, depth) in enumerate(batches):
         _, items = ctx.generate("MC_News", cfg, "gen%d.ndjson" % b, simulate=nsim, depth=depth, extra_seed=1800 + b, timeout=900)
@@ -127,7 +145,8 @@ def run(ctx, prop):
             o = json.loads(line).get("op")
             ops[o] = ops.get(o, 0) + 1
         if b == 0:
-            ctx.sample({"script": used[1 % len(used)]["steps"][:8]})
+            for i in (1, 2, 4):
+                ctx.sample({"user": show(used[i % len(used)]["world"]["user"]), "script": [pretty(x) for x in used[i % len(used)]["steps"][:10]]})
         for v in viol:
             run_id = v.get("run")
             for sig, what in sigs_of(v):
@@ -157,3 +176,24 @@ def run(ctx, prop):
         "dates are the server's clock: the model takes the date shown right after the post and requires it unchanged afterwards",
         "item names never start with LF or TAB (texts do); names are affected by the YAML findings in the same way",
     ]
+
+
+def replay(ctx, prop, rp):
+    """Re-execute the recorded (already decorated) script of a violation on the current tree and judge it again."""
+    sc = (rp.get("replay") or {}).get("script")
+    if not sc:
+        raise Fatal("replay file has no script")
+    ctx.build(name="vh-news")
+    sp, lp = ctx.path("replay.ndjson"), ctx.path("replay.log.ndjson")
+    with open(sp, "w") as f:
+        f.write(json.dumps(sc) + "\n")
+    ctx.harness(["-scripts", sp, "-out", lp, "-par", "1"], timeout=600)
+    viol, drift = ctx.validate("Trace_News", "Trace_News.cfg", lp, timeout=600)
+    ctx.cov["traces_validated_against_impl"] += 1
+    ctx.sample({"script": [pretty(x) for x in sc["steps"][:10]]})
+    for v in viol:
+        for sig, what in sigs_of(v):
+            what.update({"op": v.get("op"), "line": v.get("line"), "step": v.get("step")})
+            ctx.add_violation(sig, what, replay={"driver": "vh-news", "trace_module": "Trace_News", "failing_step": v.get("k"), "script": sc})
+    for d in drift:
+        ctx.add_drift({"op": d.get("op"), "run": d.get("run"), "k": d.get("k"), "detail": d.get("detail")})
